@@ -121,7 +121,7 @@ def generic_cases(draw, tier="quick"):
     Amat = draw(gen.mat(mf, nf))
     x = draw(gen.vec(max(nf, 1)))
     y = draw(gen.vec(max(mf, 1)))
-    c = {"backing": backing, "dom": dom, "ran": ran, "A": Amat, "x": x, "y": y,
+    c = {"layout": draw(st.sampled_from(gen.LAYOUTS)), "backing": backing, "dom": dom, "ran": ran, "A": Amat, "x": x, "y": y,
          # after the first round of checks one geometry is replaced by another one with the same function space
          "regeom": draw(st.sampled_from([None, None, "range", "domain"])), "fortran_out": draw(st.booleans())}
     if backing == "roll":
@@ -140,7 +140,7 @@ def build_generic(c):
     dom, ran = gen.make_geometry(c["dom"]), gen.make_geometry(c["ran"])
     b = c["backing"]
     if b == "dense":
-        return cuqi.model.LinearModel(Am, range_geometry=ran, domain_geometry=dom)
+        return cuqi.model.LinearModel(gen.relayout(Am, c.get("layout", "plain")), range_geometry=ran, domain_geometry=dom)
     if b == "csr":
         return cuqi.model.LinearModel(sp.csr_matrix(Am), range_geometry=ran, domain_geometry=dom)
     if b == "csc":
